@@ -62,6 +62,19 @@ let lseq_case id count ops =
     (if tries = [] then "-" else String.concat "" tries) rets
     (if (snd !c O).lprog = [] then 1 else 0)
 
+(* ---- call_once, sequential: thread 0 makes k calls, plan.[i] = the i-th run throws *)
+let oseq_case id k plan =
+  let c = ref (o_init, o_locals (fun t -> if int_of_nat t = 0 then nat_of_int k else O)) in
+  let fuel = ref (40 * (k + 1)) in
+  while !fuel > 0 && o_enabled (fst !c) O (snd !c O) do
+    decr fuel;
+    let runs = int_of_nat (nend (fst !c).olog) in
+    let th = runs < String.length plan && plan.[runs] = '1' in
+    c := step o_tstep !c (O, OONorm th) done;
+  let s = String.concat "" (List.rev_map (function
+    | OBegin _ -> "B" | OEnd (_, true) -> "E" | OEnd (_, false) -> "e" | ORet _ -> "R" | OThrown _ -> "T") (fst !c).olog) in
+  Printf.printf "OUT OSEQ %s log=%s\n" id s
+
 let () =
   try
     while true do
@@ -69,6 +82,7 @@ let () =
       match String.split_on_char ' ' line with
       | ["IN"; "BAR"; id; e0; _p; progs; sched] -> bar_case id (int_of_string e0) progs sched
       | ["IN"; "LSEQ"; id; count; ops] -> lseq_case id (int_of_string count) ops
+      | ["IN"; "OSEQ"; id; k; plan] -> oseq_case id (int_of_string k) plan
       | _ -> ()
     done
   with End_of_file -> ()
